@@ -461,7 +461,9 @@ func run(c *core.Case, st *core.CaseStats, seed int64) {
 		})
 	case "base64":
 		encName, n, bad := argS(c, 0), argI(c, 1), argS(c, 2)
-		enc := map[string]*base64.Encoding{"std": base64.StdEncoding, "url": base64.URLEncoding, "rawstd": base64.RawStdEncoding, "rawurl": base64.RawURLEncoding}[encName]
+		enc := map[string]*base64.Encoding{"std": base64.StdEncoding, "url": base64.URLEncoding, "rawstd": base64.RawStdEncoding, "rawurl": base64.RawURLEncoding,
+			"std-nopad": base64.StdEncoding.WithPadding(base64.NoPadding), "url-nopad": base64.URLEncoding.WithPadding(base64.NoPadding),
+			"rawstd-strict": base64.RawStdEncoding.Strict(), "std-star": base64.StdEncoding.WithPadding('*')}[encName]
 		d := rb(n)
 		in := map[string]interface{}{"enc": encName, "n": n, "bad": bad}
 		st.Nontrivial++
